@@ -236,9 +236,9 @@ Lemma skipn_seek seek : forall ks r, ksorted ks ->
   (r = length ks \/ exists b, nth_error ks r = Some b /\ (seek <= b)%N) ->
   skipn r ks = filter (N.leb seek) ks.
 Proof.
-  induction ks as [|a t IH]; intros r S H1 H2.
+  induction ks as [|a t IH]; intros r Hs H1 H2.
   - destruct r; reflexivity.
-  - apply ksorted_inv in S. destruct S as [S F]. destruct r as [|r].
+  - apply ksorted_inv in Hs. destruct Hs as [Hs F]. destruct r as [|r].
     + cbn [skipn]. destruct H2 as [H2|(b & H2 & Hb)]; [discriminate|]. cbn in H2. inv H2.
       symmetry. apply filter_all. constructor.
       * apply N.leb_le; assumption.
@@ -280,8 +280,8 @@ Lemma keys_from_sorted seek l : lsorted l -> ksorted (keys_from seek l).
 Proof.
   unfold keys_from, key_list, lsorted. generalize (map fst l). intros ks.
   induction ks as [|a t IH]; cbn; intros S; [constructor|].
-  apply ksorted_inv in S. destruct S as [S F]. destruct (N.leb seek a); auto.
-  constructor; auto. apply Forall_forall. intros x Hx. apply filter_In in Hx.
+  apply ksorted_inv in S. destruct S as [S F]. destruct (N.leb seek a); [|exact (IH S)].
+  constructor; [exact (IH S)|]. apply Forall_forall. intros x Hx. apply filter_In in Hx.
   rewrite Forall_forall in F. apply F. tauto.
 Qed.
 
@@ -293,3 +293,93 @@ Proof.
   unfold keys_from, key_list, from_seek. induction l as [|[k v] r IH]; cbn; [reflexivity|].
   destruct (N.leb seek k); cbn; now rewrite IH.
 Qed.
+
+(* ---------------------------------------------------------------------- *)
+(* the specification list [live_entries] characterised by membership *)
+
+Lemma lsorted_in_lookup l k v : lsorted l -> (In (k, v) l <-> lookup k l = Some v).
+Proof.
+  intros S. split; [|apply lookup_in].
+  induction l as [|[k' v'] r IH]; cbn; [tauto|].
+  apply ksorted_inv in S. cbn in S. destruct S as [S F]. intros [E|Hin].
+  - inv E. now rewrite N.eqb_refl.
+  - destruct (N.eqb_spec k k').
+    + subst. rewrite Forall_forall in F. assert (k' < k')%N; [|lia].
+      apply F. apply in_map_iff. exists (k', v). auto.
+    + auto.
+Qed.
+
+Definition sel (live : value -> bool) (kv : key * value) : list (key * list N) :=
+  match snd kv with
+  | Some b => if live (snd kv) then [(fst kv, b)] else []
+  | None => [] end.
+
+Lemma live_entries_eq live s seek :
+  live_entries live s seek = flat_map (sel live) (from_seek seek (flatten s)).
+Proof. reflexivity. Qed.
+
+Lemma flat_sel_spec live (F : layer) : lsorted F ->
+  ksorted (map fst (flat_map (sel live) F)) /\
+  Forall (fun kv => In (fst kv) (map fst F)) (flat_map (sel live) F) /\
+  forall k b, In (k, b) (flat_map (sel live) F) <->
+              (lookup k F = Some (Some b) /\ live (Some b) = true).
+Proof.
+  induction F as [|[k0 v0] r IH]; intros S.
+  - cbn. split; [constructor|]. split; [constructor|]. intros k b. split; [tauto|]. intros [H _]. discriminate.
+  - pose proof S as S0. apply ksorted_inv in S. cbn [map fst] in S. destruct S as [S Fr].
+    destruct (IH S) as (I1 & I2 & I3). cbn [flat_map].
+    assert (Hsel : sel live (k0, v0) = [] \/
+                   exists b, v0 = Some b /\ live (Some b) = true /\ sel live (k0, v0) = [(k0, b)]).
+    { unfold sel. cbn [fst snd]. destruct v0 as [b|]; [|now left].
+      destruct (live (Some b)) eqn:L; [right; eauto|now left]. }
+    assert (Hgt : Forall (fun kv : key * list N => (k0 < fst kv)%N) (flat_map (sel live) r)).
+    { eapply Forall_impl; [|exact I2]. cbn. intros kv Hin. rewrite Forall_forall in Fr. auto. }
+    split; [|split].
+    + destruct Hsel as [->|(b & -> & L & ->)]; cbn [app map fst]; [assumption|].
+      constructor; [assumption|]. rewrite Forall_map. exact Hgt.
+    + apply Forall_app. split.
+      * destruct Hsel as [->|(b & -> & L & ->)]; constructor; [now left|constructor].
+      * eapply Forall_impl; [|exact I2]. cbn. intros; now right.
+    + intros k b. rewrite in_app_iff, I3. cbn [lookup]. destruct (N.eqb_spec k k0).
+      * subst k. split.
+        -- intros [Hin|[Hl _]].
+           ++ destruct Hsel as [E|(b' & -> & L & E)]; rewrite E in Hin; [destruct Hin|].
+              destruct Hin as [Hin|[]]. inv Hin. auto.
+           ++ rewrite lookup_above in Hl; [discriminate|exact Fr].
+        -- intros [Hl L]. inv Hl. left. unfold sel. cbn [fst snd]. rewrite L. now left.
+      * split.
+        -- intros [Hin|H]; [|assumption].
+           destruct Hsel as [E|(b' & -> & L & E)]; rewrite E in Hin; [destruct Hin|].
+           destruct Hin as [Hin|[]]. inv Hin. congruence.
+        -- intros H. now right.
+Qed.
+
+Lemma sorted_mem_ext {A} (a b : list (key * A)) :
+  ksorted (map fst a) -> ksorted (map fst b) -> (forall x, In x a <-> In x b) -> a = b.
+Proof.
+  revert b. induction a as [|x ra IH]; intros [|y rb] Sa Sb H.
+  - reflexivity.
+  - exfalso. apply (H y). now left.
+  - exfalso. apply (H x). now left.
+  - cbn [map] in Sa, Sb. apply ksorted_inv in Sa. apply ksorted_inv in Sb.
+    destruct Sa as [Sa Fa], Sb as [Sb Fb]. rewrite Forall_forall in Fa, Fb.
+    assert (x = y) as ->.
+    { destruct (proj1 (H x) (or_introl eq_refl)) as [E|Hx]; [auto|].
+      destruct (proj2 (H y) (or_introl eq_refl)) as [E|Hy]; [auto|].
+      assert (fst y < fst x)%N by (apply Fb, in_map; assumption).
+      assert (fst x < fst y)%N by (apply Fa, in_map; assumption). lia. }
+    f_equal. apply IH; auto. intros z. split; intros Hz.
+    + destruct (proj1 (H z) (or_intror Hz)) as [E|Hz']; [|assumption].
+      subst z. assert (fst y < fst y)%N by (apply Fa, in_map; assumption). lia.
+    + destruct (proj2 (H z) (or_intror Hz)) as [E|Hz']; [|assumption].
+      subst z. assert (fst y < fst y)%N by (apply Fb, in_map; assumption). lia.
+Qed.
+
+Definition wf_stack (s : stack) : Prop := Forall lsorted s.
+
+Lemma view_lookup s seek k : wf_stack s ->
+  lookup k (from_seek seek (flatten s)) = if N.leb seek k then lookup_first k s else None.
+Proof. intros W. rewrite from_seek_lookup, flatten_lookup; auto. Qed.
+
+Lemma view_sorted s seek : wf_stack s -> lsorted (from_seek seek (flatten s)).
+Proof. intros W. apply filter_keys_sorted, flatten_sorted, W. Qed.
